@@ -62,7 +62,78 @@ def enc(v):
         return {"t": [enc(x) for x in v]}
     if isinstance(v, dict):
         return {"d": [[str(k), enc(x)] for k, x in v.items()]}
+    k = getattr(v, "_verif_tok", None)
+    if k is not None:
+        return {"s": f"<opaque:{k}>"}      # what the Lean model sees for an arbitrary Python object
     return {"s": "<" + type(v).__name__ + ">"}
+
+
+# arbitrary Python objects an in-process MemoryStorage legitimately holds (they deep-copy but do not pickle)
+OPAQUE = {}
+
+
+def make_opaque(k):
+    if k in OPAQUE:
+        return OPAQUE[k]
+    kind = k % 4
+    if kind == 0:
+        obj = lambda x, _k=k: x + _k                     # noqa: E731  a lambda defined in a local scope
+    elif kind == 1:
+        def closure(x):                                  # a closure over a local variable
+            return x * k
+        obj = closure
+    elif kind == 2:
+        class Local:                                     # an instance of a class defined inside a function
+            def __init__(self, n):
+                self.n = n
+                self.items = [n, {"k": n}]
+        obj = Local(k)
+    else:
+        class Holder:
+            pass
+        obj = Holder()
+        obj.fn = lambda: k
+        obj.n = k
+    obj._verif_tok = k
+    OPAQUE[k] = obj
+    return obj
+
+
+def tok(w):
+    """wire value / call with `{"o": k}` (an arbitrary object) replaced by the opaque token the model sees"""
+    if isinstance(w, dict):
+        if "o" in w:
+            return {"s": f"<opaque:{w['o']}>"}
+        return {a: tok(b) for a, b in w.items()}
+    if isinstance(w, list):
+        return [tok(x) for x in w]
+    return w
+
+
+def has_opaque(calls):
+    return "'o':" in str(calls)
+
+
+def not_a_copy(loaded):
+    """-> description if an object inside `loaded` is the very object that was stored (class instances must be copies
+    with equal attributes; functions are atomic for copy.deepcopy), else None"""
+    stack = [loaded]
+    while stack:
+        x = stack.pop()
+        if isinstance(x, dict):
+            stack.extend(x.values())
+        elif isinstance(x, (list, tuple)):
+            stack.extend(x)
+        else:
+            k = getattr(x, "_verif_tok", None)
+            if k is None or callable(x):
+                continue
+            orig = OPAQUE.get(k)
+            if x is orig:
+                return {"token": k, "what": "the loaded value is the stored object itself (not a copy)"}
+            if type(x) is not type(orig) or getattr(x, "n", None) != getattr(orig, "n", None):
+                return {"token": k, "what": "the loaded copy differs from the stored object"}
+    return None
 
 
 def dec(w):
@@ -82,6 +153,8 @@ def dec(w):
         return tuple(dec(y) for y in x)
     if tag == "d":
         return {k: dec(y) for k, y in x}
+    if tag == "o":
+        return make_opaque(x)
     raise common.HarnessError(f"bad wire value {w}")
 
 
@@ -165,7 +238,7 @@ def call_real(st, c):
     name = c[0]
     try:
         r = evaluator_view(st, c) if name in STATUS_VIEWS else getattr(st, name)(*pyargs(c))
-    except (KeyError, ValueError, TypeError, AttributeError, IndexError, RuntimeError) as e:
+    except Exception as e:   # every exception class is an answer (the model knows four; any other one is a difference)
         return {"k": "error", "v": type(e).__name__}
     kind = RET.get(name) or RET_PSEUDO[name]
     if kind == "none":
@@ -362,6 +435,7 @@ def run_history(st, calls, label, judge=True):
     sm = SimpleMap(label)
     snap = Snap()
     outs, snap_bad = [], None
+    opaque = has_opaque(calls)
     for idx, c in enumerate(calls):
         name = c[0]
         if name in ("load_job", "load_search"):
@@ -369,11 +443,17 @@ def run_history(st, calls, label, judge=True):
                 obj = getattr(st, name)(c[1])
                 out = {"k": "val", "v": enc(obj)}
                 snap.keep(c, obj, idx)
-            except (KeyError, ValueError, TypeError, AttributeError) as e:
+                if opaque and snap_bad is None:
+                    nc = not_a_copy(obj)
+                    if nc is not None:
+                        snap_bad = {"loaded_by": c, "at": idx, **nc}
+            except Exception as e:
                 out = {"k": "error", "v": type(e).__name__}
         else:
             out = call_real(st, c)
         outs.append(out)
+        if opaque:
+            c = tok(c)
         if judge:
             if c[0] in ("job_status", "running_job_status"):
                 # the evaluator-level getter shows JobStatus(<stored status>) (ValueError if that is no JobStatus)
@@ -687,8 +767,20 @@ def gen_value(rng, depth=0):
     return {"d": [[k, gen_value(rng, depth + 1)] for k in ks]}
 
 
-def gen_history(rng, n, malformed):
+def gen_value_objects(rng, depth=0):
+    """values of the in-process stream: arbitrary Python objects (and containers holding them) among ordinary values"""
+    x = rng.random()
+    if x < 0.35:
+        return {"o": rng.randint(0, 11)}
+    if x < 0.55 and depth < 2:
+        return rng.choice([{"l": [gen_value_objects(rng, depth + 1), {"i": 1}]}, {"t": [gen_value_objects(rng, depth + 1)]},
+                           {"d": [["f", gen_value_objects(rng, depth + 1)], ["n", {"i": depth}]]}])
+    return gen_value(rng, depth)
+
+
+def gen_history(rng, n, malformed, valgen=None):
     """calls are generated against a running MemoryStorage so that most of them hit existing objects"""
+    valgen = valgen or gen_value
     st = new_memory()
     calls, outs = [], []
     for _ in range(n):
@@ -711,7 +803,7 @@ def gen_history(rng, n, malformed):
                 sid = rng.choice(BAD_IDS)
             else:
                 key = rng.choice(["metadata", "status", "out", "in", "intermediate", "", "a.b"])
-        v = gen_value(rng)
+        v = valgen(rng)
         if malformed and jids and rng.random() < 0.04:
             # metadata replaced through store_job (dict or not), then used
             c = ["store_job", jid, "metadata", rng.choice([None, {"i": 3}, {"l": []}, {"s": "m"}, {"d": [["a", {"i": 1}]]}, {"d": []}])]
@@ -720,7 +812,7 @@ def gen_history(rng, n, malformed):
             kind = rng.choice(["smeta", "lmeta", "ljob", "smeta"])
         c = {
             "cs": ["create_new_search"], "cj": ["create_new_job", sid], "sj": ["store_job", jid, key if malformed else "extra_" + key, v],
-            "sin": ["store_job_in", jid, {"t": [gen_value(rng, 1)]}, rng.choice([None, {"d": [["k", v]]}])],
+            "sin": ["store_job_in", jid, {"t": [valgen(rng, 1)]}, rng.choice([None, {"d": [["k", v]]}])],
             "sout": ["store_job_out", jid, v], "smeta": ["store_job_metadata", jid, key, v],
             "sstatus": ["store_job_status", jid, {"i": rng.randint(0, 4)}], "ssv": ["store_search_value", sid, key, v],
             "lsids": ["load_all_search_ids"], "ljids": ["load_all_job_ids", sid], "lsearch": ["load_search", sid], "ljob": ["load_job", jid],
@@ -800,6 +892,48 @@ def long_worker(item):
 
 
 # --------------------------------------------------------------------------- NullStorage (identifiers only)
+
+
+def object_histories(ck, drv):
+    """in-process MemoryStorage only: histories whose stored inputs / outputs / metadata / search values are arbitrary
+    Python objects (local lambdas and closures, instances of locally defined classes, containers holding them) — values an
+    in-process storage legitimately holds and that cannot reach SharedMemoryStorage.  The model sees an opaque token for
+    each; loads must not raise, must return the stored structure, and class instances must come back as copies."""
+    rng = ck.rng
+    sink = Sink()
+    reqs, metas, checks = [], [], []
+    for t in range(ck.pick(60, 400)):
+        calls = gen_history(rng, rng.choice([6, 10, 20, 40]), False, valgen=gen_value_objects)
+        if not has_opaque(calls):
+            continue
+        mcalls = tok(calls)
+        case = {"kind": "history", "storage": "MemoryStorage", "calls": calls}
+        sink.case(case, nontrivial=True)
+        sink.count("schedule:generated-python-objects")
+        st = new_memory()
+        outs, bad, snap_bad = run_history(st, calls, "MemoryStorage")
+        for c, o in zip(calls, outs):
+            sink.count("op:" + c[0])
+            sink.count("out:" + (o["v"] if o["k"] == "error" else o["k"]))
+        judge_history(sink, calls, "MemoryStorage", outs, bad, snap_bad, None)
+        q = check_request(mcalls, outs)
+        if q is not None:
+            checks.append((q, case, "MemoryStorage", mcalls, bad))
+        reqs.append({"op": "hist", "s": 20_000 + t, "calls": [to_storage_call(c) for c in mcalls]})
+        metas.append((calls, outs))
+    reps = drv.ask_all(reqs)
+    creps = drv.ask_all([c[0] for c in checks])
+    for (_, case, label, calls, bad), rep in zip(checks, creps):
+        cross_check(sink, case, label, calls, bad, rep)
+    for (calls, outs), rep in zip(metas, reps):
+        for i, (x, y) in enumerate(zip(outs, rep["outs"])):
+            if y["k"] == "oom":
+                break
+            y = expected_view_out(calls[i], y)
+            if cout(x) != cout(y):
+                sink.mismatch({"kind": "history", "storage": "MemoryStorage", "calls": calls[: i + 1]}, {"call": i, "impl": cout(x), "model": cout(y)})
+                break
+    sink.fold(ck)
 
 
 def null_histories(ck, drv):
@@ -1568,6 +1702,7 @@ def run(ck):
     with ck.driver() as drv:
         _corpus(ck, drv)
         forced_split(ck, drv)
+        object_histories(ck, drv)
         null_histories(ck, drv)
         # (c) concurrency first (processes are forked before the pool threads exist)
         rounds = ck.pick([(2, 500), (3, 400), (5, 300), (8, 250)], [(n, k) for n in (2, 3, 4, 5, 6, 7, 8) for k in (150, 400)] + [(8, 1500), (4, 2500)])
@@ -1628,6 +1763,8 @@ def replay(ck, case, drv=None, quiet=False):
             factory = SharedFactory()
             try:
                 labels = ["MemoryStorage", "SharedMemoryStorage"] if case.get("storage") in (None, "both") else [case["storage"]]
+                if has_opaque(calls):
+                    labels = ["MemoryStorage"]   # arbitrary Python objects cannot reach the shared storage
                 res = {}
                 for label in labels:
                     if label == "NullStorage":
@@ -1643,7 +1780,7 @@ def replay(ck, case, drv=None, quiet=False):
                             print("  ORACLE FAILS:", b[0], b[1], json.dumps(b[2])[:600])
                         if snap_bad:
                             print("  ORACLE FAILS: snapshot", json.dumps(snap_bad)[:600])
-                    q = check_request(calls, outs)
+                    q = check_request(tok(calls), outs)
                     if q is not None:
                         crep = drv.ask(q)
                         if not quiet:
@@ -1657,7 +1794,7 @@ def replay(ck, case, drv=None, quiet=False):
                     d = compare_outs(sink, case, "memory", res["MemoryStorage"], "shared", res["SharedMemoryStorage"])
                     if d is not None:
                         sink.fail(f"C13|shared-equals-memory|{calls[d['call']][0]}|SharedMemoryStorage", "SharedMemoryStorage answers differently", case, d)
-                rep = drv.ask({"op": "hist", "s": 999_999, "calls": [to_storage_call(c) for c in calls]})
+                rep = drv.ask({"op": "hist", "s": 999_999, "calls": [to_storage_call(c) for c in tok(calls)]})
                 outs = next(iter(res.values()))
                 for i, (x, y) in enumerate(zip(outs, rep["outs"])):
                     if y["k"] == "oom":
